@@ -20,7 +20,7 @@ import Nq.Spec.SmtpPolicy
 import Nq.Spec.CmdLine
 
 namespace Nq.SmtpPolicyDoc
-open Nq Nq.SmtpSession Nq.CmdLineSpec
+open Nq Nq.SmtpSession Nq.SmtpPolicy Nq.CmdLineSpec
 
 /-- equal ignoring ASCII case: same length, and position by position the same letter -/
 def CiEq (s t : Bytes) : Prop :=
@@ -74,5 +74,32 @@ def rcptDocB (cfg : Cfg) (a : Bytes) : Option Bytes :=
   match cfg.relay with
   | some suffix => some (a ++ suffix)
   | none => if rcptHostOKB cfg a then some a else none
+
+/-! ### whole sessions: when a RCPT is answered 250, in terms of the documented rules only -/
+
+/-- a RCPT with argument `arg` arriving after `pre` is answered 250: a transaction is open, its sender is not a
+bad sender, the argument parses within the length limit, and the documented rule accepts the parsed address -/
+def GateDoc (cfg : Cfg) (pre : List Ev) (arg : Bytes) : Prop :=
+  ∃ snd mid adr stored, OpenTxn cfg pre snd mid ∧ ¬ BadSenderDoc cfg snd ∧ addrparse cfg arg = some adr ∧
+    adr.length + 1 ≤ addrLimit ∧ RcptDoc cfg adr stored
+
+def gateDocB (cfg : Cfg) (pre : List Ev) (arg : Bytes) : Bool :=
+  match openTxnB cfg pre with
+  | some (snd, _) =>
+    !badSenderDocB cfg snd &&
+    (match addrparse cfg arg with
+     | some adr => decide (adr.length + 1 ≤ addrLimit) && (rcptDocB cfg adr).isSome
+     | none => false)
+  | none => false
+
+/-- the oracle: index of the first RCPT whose answer is not the one the documented rules give -/
+def rcptDocOKB (cfg : Cfg) (pre : List Ev) (x : Ev) : Bool :=
+  match x.1 with
+  | .rcpt arg => (x.2.replies == [.rcptok]) == gateDocB cfg pre arg
+  | _ => true
+
+def traceBadDoc (cfg : Cfg) : List Ev → List Ev → Nat → Option Nat
+  | _, [], _ => none
+  | pre, x :: r, i => if rcptDocOKB cfg pre x then traceBadDoc cfg (pre ++ [x]) r (i + 1) else some i
 
 end Nq.SmtpPolicyDoc
